@@ -443,7 +443,7 @@ class PEP8Normalizer(ErrorFinder):
                 if type_ == 'comment':
                     # Comments can be dedented. So we have to care for that.
                     n = self._last_indentation_tos
-                    while True:
+                    while n is not None:
                         if n.indentation is None or len(indentation) > len(n.indentation):
                             break
 
